@@ -171,7 +171,16 @@ fn run_op(op: &str) -> String {
     // `~ms/OP`: wait ms milliseconds, then run OP (to place a call inside another call's window)
     if let Some(rest) = op.strip_prefix('~') {
         if let Some((ms, inner)) = rest.split_once('/') {
-            std::thread::sleep(std::time::Duration::from_millis(ms.parse().unwrap_or(0)));
+            // `~ms/OP` sleeps; `~u<micros>/OP` and `~n<nanos>/OP` spin for that long (a sleep cannot be that short): used to
+            // sweep the instant of a registration across the first microseconds of the calls it races
+            if let Some(us) = ms.strip_prefix('u').or_else(|| ms.strip_prefix('n')) {
+                let d = if ms.starts_with('n') { std::time::Duration::from_nanos(us.parse().unwrap_or(0)) }
+                        else { std::time::Duration::from_micros(us.parse().unwrap_or(0)) };
+                let t0 = std::time::Instant::now();
+                while t0.elapsed() < d { std::hint::spin_loop(); }
+            } else {
+                std::thread::sleep(std::time::Duration::from_millis(ms.parse().unwrap_or(0)));
+            }
             return run_op(inner);
         }
     }
